@@ -129,6 +129,83 @@ Section Resolve.
 
   Variable rootDraft7 : bool.
 
+  (* resolver.resolveRef, given the recursive call that resolves a loaded document *)
+  Definition resolveRef (rec : rstate -> schema -> uri -> res (rstate * nat)) (di : docinfo) (d : nat)
+             (st : rstate) (p : list seg) (ref : str) : res (rstate * (loc * str)) :=
+    match parse_uri ref with
+    | POk refURI0 =>
+        match lookup_path p (di_base di) with
+        | None => Panic
+        | Some base =>
+            match lookup_path base (di_uri di) with
+            | None => Panic
+            | Some bu =>
+                let refURI := resolve_reference bu refURI0 in
+                let fragless := uri_string (drop_frag refURI) in
+                tgt <-
+                  (match lookup fragless (di_uris di) with
+                   | Some q => Ok (st, (d, q))
+                   | None =>
+                       match lookup fragless (r_cache st) with
+                       | Some d' => Ok (st, (d', []))
+                       | None =>
+                           let st' := mkR (r_docs st) (r_cache st) (r_refs st) (r_calls st ++ [fragless]) in
+                           match call_loader fragless with
+                           | None => Err
+                           | Some ls =>
+                               r <- rec st' ls (drop_frag refURI) ;;
+                               Ok (fst r, (snd r, []))
+                           end
+                       end
+                   end) ;;
+                let st2 := fst tgt in
+                let '(d', q) := snd tgt in
+                match nth_error (r_docs st2) d' with
+                | None => Panic
+                | Some di' =>
+                    let frag := u_frag refURI in
+                    match frag with
+                    | c :: _ =>
+                        if negb (N.eqb c 47) then
+                          match lookup frag (anchors_of di' q) with
+                          | Some (t, dyn) => Ok (st2, ((d', t), if dyn then frag else []))
+                          | None => Err
+                          end
+                        else
+                          match subschema_at (di_root di') q with
+                          | None => Panic
+                          | Some rs =>
+                              r <- dereferenceJSONPointer rs frag ;;
+                              Ok (st2, ((d', q ++ fst r), []))
+                          end
+                    | [] => Ok (st2, ((d', q), []))
+                    end
+                end
+            end
+        end
+    | _ => Err
+    end.
+
+  (* resolver.resolveRefs over the subschemas of one document *)
+  Definition resolveRefs (rec : rstate -> schema -> uri -> res (rstate * nat)) (di : docinfo) (d : nat)
+    : list (list seg * schema) -> rstate -> res rstate :=
+    fix refs (nodes : list (list seg * schema)) (st : rstate) : res rstate :=
+      match nodes with
+      | [] => Ok st
+      | (p, c) :: r =>
+          st1 <-
+            (if nonempty (s_ref c) then
+               x <- resolveRef rec di d st p (s_ref c) ;;
+               Ok (set_ref (fst x) (d, p) (fun ri => mkRef (Some (fst (snd x))) (rf_dynref ri) (rf_dynanchor ri)))
+             else Ok st) ;;
+          st2 <-
+            (if nonempty (s_dynamicRef c) then
+               x <- resolveRef rec di d st1 p (s_dynamicRef c) ;;
+               Ok (set_ref (fst x) (d, p) (fun ri => mkRef (rf_ref ri) (Some (fst (snd x))) (snd (snd x))))
+             else Ok st1) ;;
+          refs r st2
+      end.
+
   (* resolver.resolve: [fuel] bounds the depth of nested document loads *)
   Fixpoint resolve_doc (fuel : nat) (st : rstate) (s : schema) (baseURI : uri) : res (rstate * nat) :=
     match fuel with
@@ -141,79 +218,7 @@ Section Resolve.
         let d := length (r_docs st) in
         let rootURI := match lookup_path [] (di_uri di) with Some u => uri_string u | None => [] end in
         let st1 := mkR (r_docs st ++ [di]) ((rootURI, d) :: (uri_string baseURI, d) :: r_cache st) (r_refs st) (r_calls st) in
-        (* resolveRef *)
-        let resolveRef (st : rstate) (p : list seg) (ref : str) : res (rstate * (loc * str)) :=
-          match parse_uri ref with
-          | POk refURI0 =>
-              match lookup_path p (di_base di) with
-              | None => Panic
-              | Some base =>
-                  match lookup_path base (di_uri di) with
-                  | None => Panic
-                  | Some bu =>
-                      let refURI := resolve_reference bu refURI0 in
-                      let fragless := uri_string (drop_frag refURI) in
-                      tgt <-
-                        (match lookup fragless (di_uris di) with
-                         | Some q => Ok (st, (d, q))
-                         | None =>
-                             match lookup fragless (r_cache st) with
-                             | Some d' => Ok (st, (d', []))
-                             | None =>
-                                 let st' := mkR (r_docs st) (r_cache st) (r_refs st) (r_calls st ++ [fragless]) in
-                                 match call_loader fragless with
-                                 | None => Err
-                                 | Some ls =>
-                                     r <- resolve_doc n st' ls (drop_frag refURI) ;;
-                                     Ok (fst r, (snd r, []))
-                                 end
-                             end
-                         end) ;;
-                      let st2 := fst tgt in
-                      let '(d', q) := snd tgt in
-                      match nth_error (r_docs st2) d' with
-                      | None => Panic
-                      | Some di' =>
-                          let frag := u_frag refURI in
-                          match frag with
-                          | c :: _ =>
-                              if negb (N.eqb c 47) then
-                                match lookup frag (anchors_of di' q) with
-                                | Some (t, dyn) => Ok (st2, ((d', t), if dyn then frag else []))
-                                | None => Err
-                                end
-                              else
-                                match subschema_at (di_root di') q with
-                                | None => Panic
-                                | Some rs =>
-                                    r <- dereferenceJSONPointer rs frag ;;
-                                    Ok (st2, ((d', q ++ fst r), []))
-                                end
-                          | [] => Ok (st2, ((d', q), []))
-                          end
-                      end
-                  end
-              end
-          | _ => Err
-          end in
-        (* resolveRefs *)
-        st' <-
-          (fix refs (nodes : list (list seg * schema)) (st : rstate) : res rstate :=
-             match nodes with
-             | [] => Ok st
-             | (p, c) :: r =>
-                 st1 <-
-                   (if nonempty (s_ref c) then
-                      x <- resolveRef st p (s_ref c) ;;
-                      Ok (set_ref (fst x) (d, p) (fun ri => mkRef (Some (fst (snd x))) (rf_dynref ri) (rf_dynanchor ri)))
-                    else Ok st) ;;
-                 st2 <-
-                   (if nonempty (s_dynamicRef c) then
-                      x <- resolveRef st1 p (s_dynamicRef c) ;;
-                      Ok (set_ref (fst x) (d, p) (fun ri => mkRef (rf_ref ri) (Some (fst (snd x))) (snd (snd x))))
-                    else Ok st1) ;;
-                 refs r st2
-             end) (all_sub s) st1 ;;
+        st' <- resolveRefs (resolve_doc n) di d (all_sub s) st1 ;;
         Ok (st', d)
     end.
 
